@@ -288,7 +288,32 @@ def rule_iter(ctx, rep):
                       ("__cds_wfcq_first_nonblocking", fst(False)), ("__cds_wfcq_first_blocking", fst(True))):
         f = m.fn(name)
         pat.require(f is not None, name + " vanished")
-        dtable.compare(rep, "C10.iter", name, f, exp, "classes of (node->next, tail->p, re-loaded node->next)")
+        # def-use form (decides even when the set of decision variables changed): NULL = "end of queue" is answered only
+        # after tail->p was seen equal to the node; a returned successor word was seen non-NULL
+        nbad = 0
+        cases = paths.ret_cases(f)
+        pat.require(len(cases) >= 1, name + ": return cases")
+        for _p, atoms, v in cases:
+            if v == ("c", 0):
+                ok = any(a[0] == "eq" and a[1][0] == "load" and a[2][0] in ("arg", "addr") for a in atoms)
+                why = "returns NULL (end of queue) without having seen tail->p == node: an enqueue in flight (tail already moved, next not yet linked) is reported as the end, the iteration/dequeue loses the nodes behind it"
+            elif v is not None and v[0] == "load":
+                ok = any(a[0] == "ne" and a[1][0] == "load" and a[1][3] == v[3] and a[2] == ("c", 0) for a in atoms) or \
+                    (any(a[0] == "eq" and a[1][0] == "load" and a[1][3] == v[3] and a[2] == ("c", 0) for a in atoms) and
+                     any(a[0] == "eq" and a[1][0] == "load" and a[2][0] in ("arg", "addr") for a in atoms))
+                why = "returns the loaded next pointer without having seen it non-NULL: a NULL next of an enqueue in flight is reported as the end of the queue, the nodes behind it are lost to the iteration"
+            else:
+                continue
+            if not ok:
+                nbad += 1
+                rep.bad("C10.iter", name + ".end-decided-by-tail", why, [f.rets()[0].where()])
+        if not nbad:
+            rep.ok("C10.iter", name + ".end-decided-by-tail", "NULL only after tail->p == node; a returned successor was seen non-NULL (%d return cases)" % len(cases), [f.rets()[0].where()])
+        try:
+            dtable.compare(rep, "C10.iter", name, f, exp, "classes of (node->next, tail->p, re-loaded node->next)")
+        except Broken:
+            if not nbad:
+                raise
 
 
 def rule_macro(ctx, rep):
